@@ -923,9 +923,9 @@ func (c *Client) CallProgressive(ctx context.Context, procedure string, sendProg
 				// In subsequent progressive calls we only need and allow
 				// `OptProgress` option from the business side. All other
 				// options should be removed from the CALL message.
-				options[wamp.OptProgress] = cliOptions[wamp.OptProgress].(bool)
-
-				callInProgress, _ = options[wamp.OptProgress].(bool)
+				// An unset (or non-boolean) `OptProgress` means the last chunk.
+				callInProgress, _ = cliOptions[wamp.OptProgress].(bool)
+				options[wamp.OptProgress] = callInProgress
 
 				message := &wamp.Call{
 					Request:   id,
